@@ -83,7 +83,7 @@ def run(tier):
     for init, ops in paths:
         for ks in rng.sample(KEYSETS, nsets):
             kenc = rng.pick(["f64", "f64", "str", "M8"]) if NULL in ks else rng.pick(["f64", "i64", "str"])
-            if kenc == "str" and ks[0] == NULL:
+            if False and kenc == "str" and ks[0] == NULL:      # (constructor failure repaired in 0f71cb3: string keys with a leading null are driven)
                 kenc = "f64"          # (constructor failure on the chunked route: known finding of C02)
             cases.append(dict(keys=ks, kenc=kenc, init=init, ops=ops, seed=rng.randrange(10 ** 9)))
     # random walks over the same graph
